@@ -5,6 +5,7 @@ Nothing here rewrites executable text except through an edit declared in a .vspe
 edit is matched on whitespace/comment-normalised tokens and must match the declared number of
 times, otherwise `LostAnchor` is raised and the unit is *undecided* (never a pass, never an alarm).
 """
+import os
 import re
 IDENT_RE = re.compile(r'^[A-Za-z_][A-Za-z0-9_]*$')
 
@@ -928,6 +929,59 @@ class Item:
         self.log.append({"kind": "desugar-for", "loop": k, "pattern": P, "iter": E,
                          "why": "rustc's own desugaring; Verus `for` cannot contain `continue`"})
 
+    def desugar_for_indexed(self, k, ivar=None):
+        """for (I, &C) in SRC.iter().enumerate()[.rev()] { B }   ==>
+             forward:  let mut __ik: usize = 0; while __ik < (SRC).len() { let I = __ik; let C = (SRC)[I]; __ik = __ik + 1; B }
+             reverse:  let mut __ik: usize = (SRC).len(); while __ik > 0 { __ik = __ik - 1; let I = __ik; let C = (SRC)[I]; B }
+        (`(I, C)` without `&` binds C to `&(SRC)[I]`).  This is what enumerate (and its double-ended rev) yield for a slice,
+        element by element; `break` / `continue` keep their meaning because the counter is advanced before B.
+        Verus has no specification for Enumerate / Rev."""
+        ls = self.loops()
+        if k < 1 or k > len(ls) or self.toks[ls[k - 1]].s != "for":
+            raise LostAnchor("loop ordinal %d is not a `for` in %s" % (k, self.path))
+        f = ls[k - 1]
+        o = self.loop_body_open(f)
+        T = self.toks
+        hdr = texts(T[f + 1:o])
+        # ( I , [&] C ) in SRC . iter ( ) . enumerate ( ) [ . rev ( ) ]
+        if hdr[0] != "(" or hdr[2] != ",":
+            raise LostAnchor("desugar-for-indexed: loop %d of %s is not `for (i, x) in ..`" % (k, self.path))
+        I = hdr[1]
+        j = 3
+        byval = False
+        if hdr[j] == "&":
+            byval = True
+            j += 1
+        C = hdr[j]
+        if hdr[j + 1] != ")" or hdr[j + 2] != "in":
+            raise LostAnchor("desugar-for-indexed: unsupported pattern in loop %d of %s" % (k, self.path))
+        rest = hdr[j + 3:]
+        reverse = False
+        if rest[-4:] == [".", "rev", "(", ")"]:
+            reverse = True
+            rest = rest[:-4]
+        if rest[-8:] != [".", "iter", "(", ")", ".", "enumerate", "(", ")"]:
+            raise LostAnchor("desugar-for-indexed: loop %d of %s does not iterate `SRC.iter().enumerate()`" % (k, self.path))
+        nsrc = len(rest) - 8
+        src_toks = T[f + 1 + j + 3:f + 1 + j + 3 + nsrc]
+        SRC = render(src_toks).strip()
+        cnt = ivar or ("__i%d" % k)
+        line = T[f].line
+        elem = ("(%s)[%s]" if byval else "&(%s)[%s]") % (SRC, I)
+        if reverse:
+            head = tokenize("let mut %s: usize = (%s).len();\n while %s > 0" % (cnt, SRC, cnt))
+            first = tokenize("\n %s = %s - 1; let %s = %s; let %s = %s;\n" % (cnt, cnt, I, cnt, C, elem))
+        else:
+            head = tokenize("let mut %s: usize = 0;\n while %s < (%s).len()" % (cnt, cnt, SRC))
+            first = tokenize("\n let %s = %s; let %s = %s; %s = %s + 1;\n" % (I, cnt, C, elem, cnt, cnt))
+        for t in head + first:
+            t.line = line
+        head[0].ws = T[f].ws
+        self.toks[o + 1:o + 1] = first
+        self.toks[f:o] = head
+        self.log.append({"kind": "desugar-for-indexed", "loop": k, "source": SRC, "reverse": reverse, "counter": cnt,
+                         "why": "element-by-element meaning of slice.iter().enumerate()[.rev()]; Verus has no Enumerate/Rev specification"})
+
     ITER_ADAPTERS = ("filter", "map", "filter_map", "skip_while", "take_while", "enumerate", "copied", "cloned", "skip")
 
     def desugar_iter_chain(self, anchor_src, nth, elem, out="__out", call=None):
@@ -1297,8 +1351,20 @@ class Item:
         return None
 
 
+def resolve_source(repo, relpath):
+    """`registry:<crate>-<version>/<path>` names a file of a dependency as unpacked by cargo (the crate and version
+    are pinned by /repo's Cargo.lock); everything else is relative to the repository root"""
+    if relpath.startswith("registry:"):
+        import glob
+        hits = sorted(glob.glob(os.path.expanduser("~/.cargo/registry/src/*/") + relpath[len("registry:"):]))
+        if len(hits) != 1:
+            raise LostAnchor("dependency source `%s` found %d times in the cargo registry" % (relpath, len(hits)))
+        return hits[0]
+    return "%s/%s" % (repo, relpath)
+
+
 def extract(repo, relpath, path_steps):
-    src = open("%s/%s" % (repo, relpath), encoding="utf-8").read()
+    src = open(resolve_source(repo, relpath), encoding="utf-8").read()
     toks = tokenize(src)
     start, o, c = locate(toks, path_steps)
     return Item(relpath, " :: ".join(path_steps), toks, start, o, c)
@@ -1308,8 +1374,8 @@ def find_const(repo, relpath, name):
     """the text of `const NAME: T = EXPR;` (any nesting depth) in a source file, or None; attributes and
     visibility are not part of it.  Used to follow a reference from extracted text to a module-level constant."""
     try:
-        toks = tokenize(open("%s/%s" % (repo, relpath), encoding="utf-8").read())
-    except OSError:
+        toks = tokenize(open(resolve_source(repo, relpath), encoding="utf-8").read())
+    except (OSError, LostAnchor):
         return None
     for i in range(len(toks) - 2):
         if toks[i].s in ("const", "static") and toks[i + 1].s == name and toks[i + 2].s == ":":
